@@ -29,7 +29,7 @@ PRICE_KEYS = ['Starting Electricity Sale Price', 'Ending Electricity Sale Price'
 def base_case(rng, cell, mode):
     """A configuration whose every cost stream is an input (production does not depend on any of them)."""
     em, eu, pt, rm = cell
-    c = gen.synth_case(rng, cell, costs=False, incentives=True, prices=True, addons=False, overpressure=False)
+    c = gen.synth_case(rng, cell, costs=False, incentives=True, prices=True, addons=False, overpressure=False, sdac=False)
     gen.cdel(c, 'Investment Tax Credit Rate')
     if em == 3:
         gen.cset(c, 'Investment Tax Credit Rate', rng.choice([0, 0.1]))
